@@ -142,7 +142,15 @@ func (x *Xlat) stdlib(st *State, fr *Frame, out *Outcomes, ce *ast.CallExpr, rec
 			st.assume(Forall([]Bind{{"i!", SInt}, {"j!", SInt}}, Imp(And(inr(i), inr(j), App("<=", SBool, i, j)),
 				App("<=", SBool, Sel(res, App("+", SInt, SOff(s), i)), Sel(res, App("+", SInt, SOff(s), j))))))
 		}
-		x.setElems(st, key, es, h, Sto(h, SArr(s), res), touchedWindow(s, SLen(s)))
+		h2 := x.setElems(st, key, es, h, Sto(h, SArr(s), res), touchedWindow(s, SLen(s)))
+		{
+			// the same facts over at(), plus the inverse index map (every input element occurs in the output)
+			inv := x.ctx.Fresh("perminv", ArrSort(SInt, SInt))
+			lhs := x.atTerm(h2, s, i, es)
+			st.assume(Forall([]Bind{{"i!", SInt}}, Imp(inr(i), Eq(lhs, x.atTerm(h, s, Sel(perm, i), es))), []*Term{lhs}))
+			lhs2 := x.atTerm(h, s, j, es)
+			st.assume(Forall([]Bind{{"j!", SInt}}, Imp(inr(j), And(inr(Sel(inv, j)), Eq(Sel(perm, Sel(inv, j)), j), Eq(x.atTerm(h2, s, Sel(inv, j), es), lhs2))), []*Term{lhs2}))
+		}
 		x.models[full+": result is a permutation of the input (sortedness w.r.t. the comparator is not used) (A5)"] = true
 		return nil
 	case "maps.Clone":
